@@ -524,6 +524,11 @@ class SegmentWriter(IndexWriter):
         info = ix._read_toc()
         self.generation = info.generation + 1
         self.schema = info.schema
+        # The schema may be the very object the Index was created with, and
+        # add_field()/remove_field() change it in place: remember its fields
+        # so cancel() can put them back
+        self._original_fields = (dict(self.schema._fields),
+                                 dict(self.schema._dyn_fields))
         self.segments = info.segments
         self.docnum = self.docbase = docbase
         self._setup_doc_offsets()
@@ -945,6 +950,10 @@ class SegmentWriter(IndexWriter):
 
     def cancel(self):
         self._check_state()
+        # Undo any schema changes made through this writer
+        fields, dynfields = self._original_fields
+        self.schema._fields = dict(fields)
+        self.schema._dyn_fields = dict(dynfields)
         self._close_segment()
         self._finish()
 
